@@ -1,7 +1,8 @@
 (* C02 — retained messages returned for a subscription filter are exactly those whose topic the filter matches.
    Statements only. *)
 From MV Require Import Base.Val Topics.Levels Topics.Match Topics.Alist Topics.IndexSpec Topics.Trie
-  Topics.TrieRefine Topics.TrieMsgs Topics.RetSub Topics.RetSubProofs Findings.FixedC02.
+  Topics.TrieRefine Topics.TrieMsgs Topics.RetSub Topics.RetSubProofs Topics.Lin Topics.RetainConc Topics.RetainConcProofs
+  Findings.FixedC02.
 From Coq Require Import Permutation.
 Open Scope N_scope.
 
@@ -49,6 +50,24 @@ Theorem C02_delivered_every_order : forall ops f qt denied subq maxq free scan,
              (deliver denied subq maxq free scan) = true.
 Proof. exact deliver_on_index. Qed.
 
+(* Concurrency: with every index operation (RetainMessage's set + store included) one atomic step under the root
+   lock, after ANY schedule of retained publishes / clears / subscribes / unsubscribes on several goroutines,
+   Messages(f) returns — for every well-formed filter f, exact or wildcard — exactly the retained messages whose topic
+   f matches in the map obtained by running the history of the schedule serially (which keeps every goroutine's
+   program order).  The split variant (lock released before the store) is refuted in Properties/C05.v. *)
+Theorem C02_after_any_schedule : forall prog (sched : list nat) xf restf h f,
+  Forall (fun c => wf_ropb c = true) (concat prog) ->
+  run_sched r_model_step sched ix_empty prog = (xf, restf, h) ->
+  msg_filter_ok f = true ->
+  let serial := map (fun e : nat * rop * N => snd (fst e)) h in
+  (forall t, proj t h ++ nth t restf [] = nth t prog []) /\
+  Permutation (messages xf f) (spec_retained (fst (seq_run r_spec_step a_empty serial)) f).
+Proof.
+  intros prog sched xf restf h f W H OK serial.
+  destruct (retain_atomic_all_schedules ix_empty a_empty prog sched xf restf h R_empty W H) as (P & _ & HR).
+  split; [exact P|]. exact (messages_perm _ _ f HR OK).
+Qed.
+
 (* non-vacuity of the delivery statement: one topic denied, window of one slot, three QoS 1 and one QoS 0 message;
    a loop that stops at the first failure (seeded change C02b) is rejected by the same specification *)
 Example C02_delivery_nonvacuous :
@@ -82,3 +101,4 @@ Print Assumptions C02_refines.
 Print Assumptions C02_exactly.
 Print Assumptions C02_once.
 Print Assumptions C02_delivered_every_order.
+Print Assumptions C02_after_any_schedule.
